@@ -211,52 +211,69 @@ def run(ctx: Ctx) -> None:
                 ctx.violation("C18:clone-changes-layout" if (sliced and (rounding_level(pairs) or layout_only())) else "C18:gradients",
                               "gradients differ with tracking", rkey)
                 break
-            # (2) metrics = statistics of the tensors that flowed (direct path: node names coincide)
-            if not via_dynamo:
-                g = graph_of()
-                for n in g.nodes:
-                    m = n.meta.get("metrics")
-                    if n.name in cap.nonfloat:
-                        if m is not None or n.meta.get("outputs_float_tensor"):
-                            ctx.violation("C18:nonfloat-instrumented", "a non-float value was instrumented", {**rkey, "node": n.name})
-                        continue
-                    if n.name not in cap.vals:
-                        continue
-                    if m is None:
-                        ctx.violation("C18:missing-metrics", "no metrics recorded for a float tensor", {**rkey, "node": n.name})
-                        break
-                    f = same_stats(m.fwd, stats(cap.vals[n.name]))
-                    if f:
-                        ctx.violation(f"C18:fwd-metric:{f}", "forward metric differs from the statistic of the tensor that flowed",
-                                      {**rkey, "node": n.name}, {"got": getattr(m.fwd, f), "want": stats(cap.vals[n.name])[f]})
-                        break
-                    if n.name in cap.grads:
-                        if m.bwd is None:
-                            ctx.violation("C18:bwd-missing", "no backward metrics although a gradient reached the tensor",
-                                          {**rkey, "node": n.name})
-                            break
-                        f = same_stats(m.bwd, stats(cap.grads[n.name]))
+            # (2) metrics = statistics of the tensors that flowed.  What was recorded is what flowed *during the run*: the
+            # parameters and inputs are changed in place (as an optimizer step would) before the metrics are read, and
+            # restored afterwards.
+            def compare_metrics() -> bool:
+                if not via_dynamo:
+                    g = graph_of()
+                    for n in g.nodes:
+                        m = n.meta.get("metrics")
+                        if n.name in cap.nonfloat:
+                            if m is not None or n.meta.get("outputs_float_tensor"):
+                                ctx.violation("C18:nonfloat-instrumented", "a non-float value was instrumented", {**rkey, "node": n.name})
+                            continue
+                        if n.name not in cap.vals:
+                            continue
+                        if m is None:
+                            ctx.violation("C18:missing-metrics", "no metrics recorded for a float tensor", {**rkey, "node": n.name})
+                            return True
+                        f = same_stats(m.fwd, stats(cap.vals[n.name]))
                         if f:
-                            ctx.violation(f"C18:bwd-metric:{f}", "backward metric differs from the statistic of the total gradient",
-                                          {**rkey, "node": n.name}, {"got": getattr(m.bwd, f), "want": stats(cap.grads[n.name])[f]})
-                            break
-                    elif m.bwd is not None:
-                        ctx.violation("C18:bwd-stale", "backward metrics reported for a tensor that received no gradient in this run",
-                                      {**rkey, "node": n.name})
-                        break
-            else:
-                # Dynamo path: names differ; check the multiset of (numel, mean_abs) of float tensors and the no-gradient clause
-                g = graph_of()
-                got = sorted((n.meta["metrics"].fwd.numel, round(n.meta["metrics"].fwd.mean_abs, 6)) for n in g.nodes
-                             if n.meta.get("metrics") is not None)
-                want = sorted((t.numel(), round(stats(t)["mean_abs"], 6)) for t in cap.vals.values())
-                miss = [w for w in set(want) if w not in got]
-                if miss:
-                    ctx.violation("C18:dynamo-metrics", "a float tensor of the computation has no matching recorded metrics", rkey, miss[:3])
-                    break
-                if which == "none" and any(n.meta.get("metrics") is not None and n.meta["metrics"].bwd is not None for n in g.nodes):
-                    ctx.violation("C18:bwd-stale", "backward metrics reported after a forward-only run", rkey)
-                    break
+                            ctx.violation(f"C18:fwd-metric:{f}", "forward metric differs from the statistic of the tensor that flowed",
+                                          {**rkey, "node": n.name}, {"got": getattr(m.fwd, f), "want": stats(cap.vals[n.name])[f]})
+                            return True
+                        if n.name in cap.grads:
+                            if m.bwd is None:
+                                ctx.violation("C18:bwd-missing", "no backward metrics although a gradient reached the tensor",
+                                              {**rkey, "node": n.name})
+                                return True
+                            f = same_stats(m.bwd, stats(cap.grads[n.name]))
+                            if f:
+                                ctx.violation(f"C18:bwd-metric:{f}", "backward metric differs from the statistic of the total gradient",
+                                              {**rkey, "node": n.name}, {"got": getattr(m.bwd, f), "want": stats(cap.grads[n.name])[f]})
+                                return True
+                        elif m.bwd is not None:
+                            ctx.violation("C18:bwd-stale", "backward metrics reported for a tensor that received no gradient in this run",
+                                          {**rkey, "node": n.name})
+                            return True
+                else:
+                    # Dynamo path: names differ; check the multiset of (numel, mean_abs) of float tensors and the no-gradient clause
+                    g = graph_of()
+                    got = sorted((n.meta["metrics"].fwd.numel, round(n.meta["metrics"].fwd.mean_abs, 6)) for n in g.nodes
+                                 if n.meta.get("metrics") is not None)
+                    want = sorted((t.numel(), round(stats(t)["mean_abs"], 6)) for t in cap.vals.values())
+                    miss = [w for w in set(want) if w not in got]
+                    if miss:
+                        ctx.violation("C18:dynamo-metrics", "a float tensor of the computation has no matching recorded metrics", rkey, miss[:3])
+                        return True
+                    if which == "none" and any(n.meta.get("metrics") is not None and n.meta["metrics"].bwd is not None for n in g.nodes):
+                        ctx.violation("C18:bwd-stale", "backward metrics reported after a forward-only run", rkey)
+                        return True
+                return False
+
+            saved_ = [(t_, t_.detach().clone()) for t_ in list(params_t) + [x for x in xt if x.is_floating_point()]]
+            with torch.no_grad():
+                for t_, _ in saved_:
+                    t_.add_(1.0)
+            try:
+                stop = compare_metrics()
+            finally:
+                with torch.no_grad():
+                    for t_, v_ in saved_:
+                        t_.copy_(v_)
+            if stop:
+                break
 
     # ---- analyse_module: gradients unchanged, reported scales are the true standard deviations
     for i in range(4 if quick else 40):
